@@ -20,7 +20,7 @@ pub struct Dims {
     pub query_carrier: bool,
     pub path: u8,     // 0 ok, 1 %zz, 2 trailing %, 3 above root, 4 relative '*'
     pub query: u8,    // 0 ok, 1 %zz, 2 trailing %
-    pub carrier: u8,  // 0 one, 1 none, 2 both
+    pub carrier: u8,  // 0 one, 1 none, 2 both, 3 both (the other carrier present but not SigV4)
     pub alg: u8,      // 0 ok, 1 other
     pub syntax: u8,   // 0 ok, 1 token without '=' (header carrier only)
     pub missing: u8,  // bit 0 credential, 1 signature, 2 signed headers, 3 date
@@ -131,7 +131,7 @@ pub fn materialize(d: &Dims) -> Option<Case> {
     let mut w = WireReq::from_wire(&built.wire);
     if d.path == 4 {
         // asterisk-form has no query at all
-        if carrier == Carrier::Query || d.query != 0 || d.carrier == 2 {
+        if carrier == Carrier::Query || d.query != 0 || d.carrier >= 2 {
             return None;
         }
         w.uri = "*".into();
@@ -169,9 +169,10 @@ pub fn materialize(d: &Dims) -> Option<Case> {
             }
             match d.carrier {
                 1 => w.headers.retain(|h| h.0 != "Authorization"),
-                2 => {
+                2 | 3 => {
                     let sep = if w.uri.contains('?') { "&" } else { "?" };
-                    w.uri = format!("{}{}X-Amz-Algorithm=AWS4-HMAC-SHA256", w.uri, sep);
+                    let alg = if d.carrier == 2 { "AWS4-HMAC-SHA256" } else { "AWS3-HMAC-MD5" };
+                    w.uri = format!("{}{}X-Amz-Algorithm={}", w.uri, sep, alg);
                 }
                 _ => {}
             }
@@ -205,6 +206,7 @@ pub fn materialize(d: &Dims) -> Option<Case> {
                     let a = h.wire.headers.iter().find(|x| x.0 == "Authorization").unwrap().clone();
                     w.headers.push(a);
                 }
+                3 => w.headers.push(("Authorization".into(), b"Basic dXNlcjpwYXNz".to_vec())),
                 _ => {}
             }
             w.uri = format!("{}?{}", path, ps.join("&"));
@@ -388,7 +390,7 @@ fn dims_space(thorough: bool, query_carrier: bool) -> Vec<Vec<u8>> {
         vec![
             if query_carrier { vec![0, 1, 2, 3] } else { full(5) },
             full(3),
-            full(3),
+            full(4),
             full(2),
             if query_carrier { vec![0] } else { full(2) },
             full(16),
@@ -402,7 +404,7 @@ fn dims_space(thorough: bool, query_carrier: bool) -> Vec<Vec<u8>> {
         vec![
             if query_carrier { vec![0, 1, 3] } else { vec![0, 1, 3, 4] },
             vec![0, 1],
-            full(3),
+            full(4),
             full(2),
             if query_carrier { vec![0] } else { full(2) },
             vec![0, 1, 2, 4, 8, 15],
@@ -513,7 +515,7 @@ pub fn run(ctx: &Ctx) -> Report {
     Report {
         stats: st,
         rule: format!(
-            "precedence automaton over the 14 documented stages; full product of defect vectors per carrier ({} header-carrier, {} query-carrier vectors): path {{ok, %zz, trailing %, above root, '*'}} x query {{ok, %zz, trailing %}} x carrier {{one, none, both}} x algorithm x parameter syntax x missing ⊆ {{credential, signature, signed headers, date}} x requirements {{ok, host, always, conditional, prefix unsigned}} x date {{in window, malformed, expired, future}} x credential {{ok, 4 parts, 6 parts, region, service, terminator, date, all wrong}} x provider {{key, ExpiredToken, InvalidClientTokenId, IO, MalformedQueryString, foreign}} x signature {{ok, wrong}}{}; every vector is materialised as a concrete request (correctly signed wherever a signature is still meaningful; 1 in 16 cross-checked against the reference verifier) and replayed on sigv4_validate_request: kind, code, status, downcast to SignatureError, status class and provider consultation compared with the automaton's terminal; plus the kind->(code,status) table for every variant directly and through From<Box<dyn Error>>. states = (stage, vector prefix) pairs of the model; transitions = stage steps",
+            "precedence automaton over the 14 documented stages; full product of defect vectors per carrier ({} header-carrier, {} query-carrier vectors): path {{ok, %zz, trailing %, above root, '*'}} x query {{ok, %zz, trailing %}} x carrier {{one, none, both, both with a non-SigV4 second carrier}} x algorithm x parameter syntax x missing ⊆ {{credential, signature, signed headers, date}} x requirements {{ok, host, always, conditional, prefix unsigned}} x date {{in window, malformed, expired, future}} x credential {{ok, 4 parts, 6 parts, region, service, terminator, date, all wrong}} x provider {{key, ExpiredToken, InvalidClientTokenId, IO, MalformedQueryString, foreign}} x signature {{ok, wrong}}{}; every vector is materialised as a concrete request (correctly signed wherever a signature is still meaningful; 1 in 16 cross-checked against the reference verifier) and replayed on sigv4_validate_request: kind, code, status, downcast to SignatureError, status class and provider consultation compared with the automaton's terminal; plus the kind->(code,status) table for every variant directly and through From<Box<dyn Error>>. states = (stage, vector prefix) pairs of the model; transitions = stage steps",
             sizes[0], sizes[1], if thorough { "" } else { " (quick: a sub-lattice with at least one defect variant per stage and missing ∈ {none, each singleton, all})" }
         ),
         bounds: json!({"header_vectors": sizes[0], "query_vectors": sizes[1]}),
